@@ -37,4 +37,9 @@ def opLines (j : Json) : R Json := do
     | _ => throw "lines: expected [wn,wd,cn,cd]"
   return Json.mkObj [("lines", jNats out)]
 
+namespace Paginate
+def ops : List (String × (Json → R Json)) :=
+  [("assign_pages", opAssignPages), ("changes", opChanges), ("lines", opLines)]
+end Paginate
+
 end Driver
